@@ -66,6 +66,12 @@ PROPS = {
             "that is the family's density over the reals (exp-of-polynomial domain) and a tail routine using that family's R; "
             "(3) structural rules inside `ziggurat` (index mask/shift/bounds, layer-index agreement, tail entry). "
             "Not decided: the sampled law of StandardNormal/Exp1 itself."),
+    "C10": ("rules_c10", "other",
+            "Decided (structural clauses of the descent): the target is random_range(ZERO..root subtotal); in one iteration of the descent, on every "
+            "feasible path, each comparison is target' < subtotal(child) with child in {2i+1, 2i+2} and target' = target minus exactly the "
+            "children already ruled out, a true outcome moves the index to that child, the all-false path subtracts both and selects the node; "
+            "comparisons are strict; the returned index is the walked one — i.e. [0, subtotal) is cut into [left | right | self] at every node. "
+            "Not decided: rounding of float subtractions (the final assertions), consistency of the subtotals (C09), the empirical frequencies."),
     "C12": ("rules_c12", "other",
             "Decided (algebraic clauses): for UnitCircle, UnitSphere, UnitDisc, UnitBall x f32/f64 — the proposal is k fresh draws per iteration "
             "from Uniform::new(-1, 1); the one exit of the rejection loop is taken exactly when the squared norm of the proposal is below 1; "
